@@ -105,6 +105,15 @@ CURATED = [
     ([("a", 2, "l", "../elsewhere", None), ("a", 0, "l/x", "1", None), ("a", 0, "later", "2", None), ("a", 3, "h", "later", None)], 0, 1, [], False),
     ([("a", 0, "pre", "new", 0o600), ("a", 0, "predir/f", "new", None), ("a", 2, "predir", "../elsewhere", None)], 3, 1, [0, 1], False),
     ([("a", 0, "pre", "new", 0o600), ("a", 0, "predir/new", "new", None)], 2, 1, [0, 1], False),
+    # a directory used by several earlier entries is replaced by a link (--overwrite), then used again: whatever the
+    # extractor remembers about a path it has already checked must not outlive the replacement
+    ([("a", 0, "d/one", "1", None), ("a", 0, "d/two", "2", None), ("a", 2, "d", "../elsewhere", None), ("a", 0, "d/three", "pwn", None)], 1, 1, [], False),
+    ([("a", 0, "d/one", "1", None), ("a", 0, "d/two", "2", None), ("a", 0, "d/three", "3", None), ("a", 2, "d", "../elsewhere", None),
+      ("a", 0, "d/four", "pwn", None), ("a", 1, "d/newdir", "", None)], 1, 1, [], True),
+    ([("a", 0, "d/e/one", "1", None), ("a", 0, "d/e/two", "2", None), ("a", 2, "d/e", "../../elsewhere", None), ("a", 0, "d/e/three", "pwn", None),
+      ("a", 3, "d/h", "e/victim", None)], 1, 1, [], False),
+    ([("a", 1, "d", "", None), ("a", 0, "d/one", "1", None), ("a", 0, "d/two", "2", None), ("a", 2, "d", "@S/elsewhere", None), ("a", 0, "d/three", "pwn", 0o777)], 3, 2, [], False),
+    ([("a", 0, "predir/new", "1", None), ("a", 0, "predir/new2", "2", None), ("a", 2, "predir", "../elsewhere", None), ("a", 0, "predir/new3", "pwn", None)], 1, 1, [1], False),
     # pre-existing links in the output directory: two levels beneath them, as hard-link sources (the link itself,
     # a path through it), a link planted by an earlier entry as the source of a hard link beneath another one
     ([("a", 1, "prelink/sub/y", "", 0o777)], 3, 1, [2], False), ([("a", 0, "preabs/sub/y", "pwn", None)], 1, 1, [5], True),
